@@ -5,7 +5,7 @@ From GV Require Import Base.Result Gen.TokenTypes Gen.Defs Model.Parser Model.Bu
   Spec.TokenAccount
   Proofs.C03.Bounded Proofs.C03.Bounded4 Proofs.C04.Bounded Proofs.C04.Shape Proofs.C04.Validated Proofs.C04.Tokens Proofs.C04.TokensTree.
 From GV Require Import Spec.RefTable Spec.Pratt Spec.Chains Proofs.C04.InOrder.
-From GV Require Import Gen.Instr Model.Compile Proofs.C05.Known Proofs.C04.Attribution Proofs.C04.AttributionNodes.
+From GV Require Import Gen.Instr Model.Compile Proofs.C05.Known Proofs.C04.Attribution Proofs.C04.AttributionNodes Proofs.C04.ParserLeft.
 Import ListNotations.
 
 (* UNBOUNDED, for every token list: whenever parse accepts, the node links it returns
@@ -224,10 +224,10 @@ Definition C04_attribution_full_statement : Prop :=
 (* PROVED PART, for EVERY token list the parser accepts (no bound on length), every initial
    state, literal oracle and fuel: the accepted node array is a proper tree whose parent links
    agree (validate_tree), and if that tree is outside C05-K2 and has no ignored child, a
-   successful build satisfies [covered_tree_b].  What is missing for the full statement is the
-   parser-side invariant that parse never links a tree in either excluded class (checked
-   exhaustively up to length 4 over the reduced alphabet below, and by the bounded theorems
-   C04_bounded_3 / C04_bounded_4_rep above). *)
+   successful build satisfies [covered_tree_b].  (The second exclusion is discharged for every
+   parse result by C04_parser_links_no_ignored_child below, giving C04_attribution_parsed;
+   that the parser links no C05-K2 tree is checked exhaustively up to length 4 over the
+   reduced alphabet below, and by C04_bounded_3 / C04_bounded_4_rep above.) *)
 Theorem C04_attribution_parsed_partial : forall (toks : list token_type) root ns,
   parse toks = Ok (root, ns) -> ns <> [] ->
   exists t, tree_of ns root = Some t /\
@@ -287,3 +287,28 @@ Example C04_attribution_ex :
   | _ => False
   end.
 Proof. vm_compute. repeat split; reflexivity. Qed.
+
+(* UNBOUNDED, parser side of the second exclusion: for EVERY token list the parser accepts, no
+   node whose left child build() ignores (prefix operator, group, nested expression, reapply,
+   prefix apply) has a left link -- the left link of a node is fixed when the node is appended
+   (later steps only set parent / right links), prefix operators and opening brackets are
+   appended without one, and every other token's definition uses its left child.  So the
+   accepted tree always satisfies [all_children_used]. *)
+Theorem C04_parser_links_no_ignored_child : forall (toks : list token_type) root ns t,
+  parse toks = Ok (root, ns) -> tree_of ns root = Some t -> all_children_used t = true.
+Proof. exact parsed_children_used. Qed.
+Print Assumptions C04_parser_links_no_ignored_child.
+
+(* hence the attribution clause for EVERY accepted token list (no bound), every initial state,
+   literal oracle and fuel, with class C05-K2 as the only exclusion (the same class C05 / C06 /
+   C20 exclude; decidable on the parsed tree; not produced by the parser on any input tried:
+   C04_parsed_tree_ok_reduced_4, C04_bounded_3, C04_bounded_4_rep).  What remains for
+   C04_attribution_full_statement is the parser invariant that && / || never get a conditional
+   as direct left operand (they bind tighter than ?> !> |>). *)
+Theorem C04_attribution_parsed : forall (toks : list token_type) root ns,
+  parse toks = Ok (root, ns) -> ns <> [] ->
+  exists t, tree_of ns root = Some t /\
+    forall init lit fuel r, ~ Known_C05_K2 t ->
+      build ns init lit fuel root = Ok r -> covered_tree_b ns root (fst r) = true.
+Proof. exact parsed_covered_tree_K2. Qed.
+Print Assumptions C04_attribution_parsed.
